@@ -172,6 +172,47 @@ fn idle_script(pre: &[usize], cut: usize, real_ms: Option<u64>) -> Vec<Step> {
     v
 }
 
+fn junk_starts() -> Vec<Vec<u8>> {
+    vec![vec![0x1A, b'1'], vec![0x1A, b'2'], vec![0x1A, b'3'], vec![0x1A, b'4'], vec![0x1A, 0x1A], vec![0xFF, 0xFD, 0x18], b"HTTP/1.1 400 Bad Request\r\n".to_vec(), b"MSG,3,1,1,4CA2D6,1,".to_vec(), vec![0x00], vec![b'#']]
+}
+
+fn open_descriptors() -> usize {
+    std::fs::read_dir("/proc/self/fd").map(|d| d.count()).unwrap_or(0)
+}
+
+/// 10 and then 60 connections that are accepted and closed at once: the second script may not leave more
+/// descriptors open than the first (each script leaks the same constant: its parked reader and one socket)
+fn descriptor_growth(ctx: &mut Ctx) {
+    let run = |n: usize| -> Result<usize, String> {
+        let before = open_descriptors();
+        let script: Vec<Step> = (0..n).map(|_| Step::AcceptClose).collect();
+        let rep = run_script(&[], &script, &healthy(), |rows| rows.iter().any(|r| r.key == Y && r.squawk == Some(4521)));
+        if let Some(m) = rep.machinery {
+            return Err(m);
+        }
+        if !rep.alive {
+            return Err(format!("reader ended: {:?}", rep.reader_result));
+        }
+        Ok(open_descriptors().saturating_sub(before))
+    };
+    ctx.eval();
+    match (run(10), run(60)) {
+        (Ok(a), Ok(b)) => {
+            ctx.outcome(&("descriptor growth", a, b));
+            if b > a + 5 {
+                ctx.violation("C18/descriptor-growth", "10 vs 60 closed connections", || format!("after 10 accepted-and-closed connections {a} more descriptors are open than before, after 60 such connections {b}: every dropped connection leaves one behind, the decoder stops when they run out"), || json!({"fd_growth": true}));
+            }
+        }
+        (Err(e), _) | (_, Err(e)) => {
+            if e.starts_with("reader ended") {
+                ctx.violation("C18/reader-stopped", "many closed connections", || e.clone(), || json!({"fd_growth": true}));
+            } else {
+                ctx.machinery(format!("C18 descriptor growth: {e}"));
+            }
+        }
+    }
+}
+
 const TAIL_EXTRAS: [&str; 5] = ["", "7", "\r", ";", " "];
 
 fn unterminated_tail(ctx: &mut Ctx, k: usize, extra: &str) {
@@ -450,6 +491,24 @@ fn run(ctx: &mut Ctx) {
             }
         }
     }
+    // junk that begins like the other feed formats of the ecosystem (Beast binary escape 0x1A + type, AVR markers,
+    // a telnet negotiation, an HTTP answer): junk is junk, the decoder retries and goes on
+    for (k, start) in junk_starts().iter().enumerate() {
+        job += 1;
+        if ctx.mine(job) {
+            ctx.count("junk-that-looks-like-another-feed");
+            let mut b = start.clone();
+            b.extend_from_slice(&[0x00, 0x12, 0x34, 0x56, 0x78, 0x9A, 0x1A, 0x1A, 0xBC, b'\n', 0x1A, b'3', 0xFF]);
+            eval_steps(ctx, vec![Step::AcceptJunk(b.clone())], json!({"junk_start": k}), 0);
+            eval_steps(ctx, vec![Step::AcceptSend(frames_of(x_addr(0))), Step::AcceptJunk(b)], json!({"junk_start": k, "after_frames": true}), 0);
+        }
+    }
+    // descriptors: many short connections in a row must not use up more and more of them
+    job += 1;
+    if ctx.mine(job) {
+        ctx.count("descriptor-growth");
+        descriptor_growth(ctx);
+    }
     // the peer closes the connection after a last line that has no line feed: a complete frame there is a line
     // like any other (decoded), the same frame with one digit too many is not a frame
     for (k, extra) in TAIL_EXTRAS.iter().enumerate() {
@@ -499,6 +558,21 @@ fn run(ctx: &mut Ctx) {
 fn replay(ctx: &mut Ctx, case: &Value) {
     if let Some(sym) = case.get("cli").and_then(|x| x.as_u64()) {
         cli_script(ctx, sym as usize);
+        return;
+    }
+    if case.get("fd_growth").is_some() {
+        descriptor_growth(ctx);
+        return;
+    }
+    if let Some(k) = case.get("junk_start").and_then(|x| x.as_u64()) {
+        let starts = junk_starts();
+        let mut b = starts[k as usize % starts.len()].clone();
+        b.extend_from_slice(&[0x00, 0x12, 0x34, 0x56, 0x78, 0x9A, 0x1A, 0x1A, 0xBC, b'\n', 0x1A, b'3', 0xFF]);
+        if case.get("after_frames").is_some() {
+            eval_steps(ctx, vec![Step::AcceptSend(frames_of(x_addr(0))), Step::AcceptJunk(b)], case.clone(), 0);
+        } else {
+            eval_steps(ctx, vec![Step::AcceptJunk(b)], case.clone(), 0);
+        }
         return;
     }
     if let Some(k) = case.get("tail").and_then(|x| x.as_u64()) {
